@@ -142,6 +142,27 @@ def exercise(ctx, spec, dirs, klass):
                                   tuple(i for _, i in spec['levels']), depth, ac, ax),
                              case=case, nontrivial=nontrivial, klass=klass)
                     call(ctx, ft, dirs, depth, ac, ax, mode, case)
+        if all(i == 'none' for _, i in spec['levels']) and klass != 'xdev':
+            # the start directory reached through a symlink that lives elsewhere
+            # (no IGNORE entries here, so link name vs real name cannot matter); and
+            # relative starts from inside the chain
+            base = os.path.join(os.path.dirname(dirs[0]), 'elsewhere', 'x')
+            os.makedirs(base, exist_ok=True)
+            link = os.path.join(base, 'link%d' % depth)
+            if not os.path.lexists(link):
+                os.symlink(dirs[depth], link)
+            case = {'kind': 'chain', 'spec': spec, 'start': depth,
+                    'allow_compressed': True, 'allow_xdev': True, 'mode': 'symlink'}
+            ctx.case(sig=('chain-symlink', depth), case=case, nontrivial=nontrivial,
+                     klass=klass)
+            ctx.count('symlinked_starts')
+            call(ctx, ft, dirs, depth, True, True, 'symlink', case)
+        for mode in ('dot', 'mid'):
+            case = {'kind': 'chain', 'spec': spec, 'start': depth,
+                    'allow_compressed': True, 'allow_xdev': True, 'mode': mode}
+            ctx.case(sig=('chain-' + mode, tuple(i for _, i in spec['levels']), depth),
+                     case=case, nontrivial=nontrivial, klass=klass)
+            call(ctx, ft, dirs, depth, True, True, mode, case)
         if klass == 'xdev':
             # ... and with every option left to its default (what the CLI does)
             case = {'kind': 'chain', 'spec': spec, 'start': depth,
@@ -157,6 +178,17 @@ def call(ctx, ft, dirs, depth, ac, ax, mode, case):
     try:
         if mode == 'abs':
             start = dirs[depth]
+        elif mode == 'symlink':
+            start = os.path.join(os.path.dirname(dirs[0]), 'elsewhere', 'x',
+                                 'link%d' % depth)
+        elif mode == 'dot':
+            # the current directory is the start directory itself
+            os.chdir(dirs[depth])
+            start = '.'
+        elif mode == 'mid':
+            # ... or some directory half-way down the chain
+            os.chdir(dirs[depth // 2])
+            start = os.path.relpath(dirs[depth], os.getcwd())
         else:
             # relative start: from the root of the chain (or '.' when equal)
             os.chdir(dirs[0] if depth else dirs[depth])
@@ -326,6 +358,10 @@ def replay(case, ctx):
         os.makedirs(root)
         dirs = build_chain(root, spec)
         import gemato.find_top_level as ft
+        if case['mode'] == 'symlink':
+            base = os.path.join(d, 'elsewhere', 'x')
+            os.makedirs(base, exist_ok=True)
+            os.symlink(dirs[case['start']], os.path.join(base, 'link%d' % case['start']))
         call(ctx, ft, dirs, case['start'], case['allow_compressed'],
              case['allow_xdev'], case['mode'], case)
 
